@@ -8,3 +8,5 @@ import PyIkev2.Props.C12
 #print axioms PyIkev2.Props.C12.c12_mode_must_match
 #print axioms PyIkev2.Props.C12.c12_initiator_rejects_widening
 #print axioms PyIkev2.Props.C12.c12_subset_trans
+#print axioms PyIkev2.Props.C12.c12_concrete_responder_narrows_and_mode
+#print axioms PyIkev2.Props.C12.c12_concrete_initiator_never_widens
